@@ -38,10 +38,12 @@ use super::{EXTRA_PACKET_SIZE_IPV4, EXTRA_PACKET_SIZE_IPV6};
 
 /// Size of each request buffer
 ///
-/// Needs to fit recvmsg metadata in addition to the payload.
-///
-/// The payload of a scrape request with 20 info hashes fits in 256 bytes.
-const REQUEST_BUF_LEN: usize = 512;
+/// Needs to fit recvmsg metadata (io_uring_recvmsg_out header and socket
+/// address) in addition to the payload. Requests that don't fit are dropped,
+/// so accept payloads as large as the mio backend does. This includes scrape
+/// requests with the maximum configurable number of info hashes as well as
+/// announce requests followed by extension data.
+const REQUEST_BUF_LEN: usize = BUFFER_SIZE + 64;
 
 /// Size of each response buffer
 ///
